@@ -18,16 +18,22 @@ U2(i, ei, j, ej) == [k \in 1..NA |-> IF k = i THEN 6 * ei ELSE IF k = j THEN 6 *
 LeafCat == << UAtom(1), UAtom(2), UAtom(3), UAtom(4), UAtom(5), UAtom(6), UOne,
               U2(1, 1, 4, -1), U2(2, 1, 5, -1), U2(1, 2, 1, 2), U2(2, 1, 3, 1),
               UAtom(7), UAtom(8), UAtom(9), UAtom(10), UAtom(11), U2(7, 1, 10, -1),
-              UAtom(12), UAtom(14), UAtom(15), UAtom(13), U2(3, 2, 3, 2), U2(8, 2, 8, 2), U2(1, 1, 5, -1) >>
-NLeafCat == 24
-IsAngle(u) == DV(u) = <<0, 0, 6>>
+              UAtom(12), UAtom(14), UAtom(15), UAtom(13), U2(3, 2, 3, 2), U2(8, 2, 8, 2), U2(1, 1, 5, -1),
+              \* 25..37: magnitude classes (tiny / huge scales, see Arith!AtomPV)
+              UAtom(16), UAtom(17), UAtom(18), UAtom(19), UAtom(20), UAtom(21), UAtom(22), UAtom(23), UAtom(24), UAtom(25),
+              UAtom(26), UAtom(27), UAtom(28) >>
+NLeafCat == 37
+IsAngle(u) == DV(u) = DAngle1
 Commens(i, j) == DV(LeafCat[i]) = DV(LeafCat[j])
+\* a leaf is re-expressed inside its scale class: commensurable units whose scale ratio is a small rational (so that the
+\* re-expressed leaf values stay inside the value bound); tiny, ordinary and huge units form separate classes
+Reex(i, j) == Commens(i, j) /\ LET r == PVRat(VSub(SV(LeafCat[i]), SV(LeafCat[j]))) IN r.ok /\ r.v[1] <= 2048 /\ r.v[2] <= 2048
 \* cyclic successor inside the commensurability class (quick tier: one re-expression per unit)
-NextIn(i) == LET later == {j \in LeafSet : j > i /\ Commens(i, j)}
-                 all == {j \in LeafSet : Commens(i, j)} IN
+NextIn(i) == LET later == {j \in LeafSet : j > i /\ Reex(i, j)}
+                 all == {j \in LeafSet : Reex(i, j)} IN
              IF later # {} THEN CHOOSE j \in later : \A k \in later : j <= k
              ELSE CHOOSE j \in all : \A k \in all : j <= k
-Alt(i) == IF ReexAll THEN {j \in LeafSet : Commens(i, j)} ELSE {NextIn(i)}
+Alt(i) == IF ReexAll THEN {j \in LeafSet : Reex(i, j)} ELSE {NextIn(i)}
 
 \* leaf values (run A)
 \* angles: degrees for `degree`, multiples of 15 degrees for the other angle leaves; chosen so that sin and cos (x) / tan (y)
